@@ -16,7 +16,11 @@ import (
 	"github.com/smart-core-os/sc-golang/verifharness/hx"
 )
 
-const stepTimeout = 3 * time.Second
+const stepTimeout = 4 * time.Second
+
+// timedOut waits for d and then reports whether ready still has nothing to offer: after a
+// stall of the whole process both the timer and the awaited event are due, and the event wins.
+func expired(d time.Duration) <-chan time.Time { return time.After(d) }
 
 type Term struct {
 	Has  bool   `json:"has"`
@@ -85,8 +89,18 @@ type cres struct {
 
 func runScript(e *env, tr string, conn grpc.ClientConnInterface, c Case, rng *rand.Rand) Transcript {
 	timeout := 25 * time.Millisecond
+	hungBefore := false
 	for attempt := 0; ; attempt++ {
 		t, early := runOnce(e, tr, conn, c, rng, timeout, attempt)
+		if !early && len(t.Hang) > 0 && !hungBefore {
+			// run it again: only an op that hangs twice is reported (a stalled machine looks the same once)
+			hungBefore = true
+			if tr == "w" {
+				waitNoWrapGoroutines(time.Second)
+				drainLeak()
+			}
+			continue
+		}
 		if !early {
 			return t
 		}
@@ -188,9 +202,14 @@ func runOnce(e *env, tr string, conn grpc.ClientConnInterface, c Case, rng *rand
 		select {
 		case r := <-ch:
 			record(i, r)
-		case <-time.After(stepTimeout):
-			record(i, cres{op: op, hang: true})
-			aborted = true
+		case <-expired(stepTimeout):
+			select {
+			case r := <-ch:
+				record(i, r)
+			default:
+				record(i, cres{op: op, hang: true})
+				aborted = true
+			}
 		}
 	}
 
@@ -319,9 +338,12 @@ func runOnce(e *env, tr string, conn grpc.ClientConnInterface, c Case, rng *rand
 			case "deadline":
 				select {
 				case <-ctx.Done():
-				case <-time.After(stepTimeout):
-					t.Hang = append(t.Hang, i)
-					aborted = true
+				case <-expired(stepTimeout):
+					if ctx.Err() == nil {
+						t.Hang = append(t.Hang, i)
+						logf(i, "c", "deadline", "HANG")
+						aborted = true
+					}
 				}
 			default:
 				hx.Fatal("unknown client op %q", st.C)
@@ -345,8 +367,18 @@ func runOnce(e *env, tr string, conn grpc.ClientConnInterface, c Case, rng *rand
 
 		// ---- completion of the step
 		if sWait {
+			var r sres
+			got := true
 			select {
-			case r := <-cl.done:
+			case r = <-cl.done:
+			case <-expired(stepTimeout):
+				select {
+				case r = <-cl.done:
+				default:
+					got = false
+				}
+			}
+			if got {
 				r.I = i
 				logf(i, "s", r.Op, "%s %d %s", r.Kind, r.V, r.Code)
 				if r.Op == "recv" {
@@ -363,7 +395,7 @@ func runOnce(e *env, tr string, conn grpc.ClientConnInterface, c Case, rng *rand
 					t.Hang = append(t.Hang, i)
 					aborted = true
 				}
-			case <-time.After(stepTimeout):
+			} else {
 				t.Hang = append(t.Hang, i)
 				logf(i, "s", st.S, "HANG")
 				aborted = true
@@ -393,16 +425,26 @@ func runOnce(e *env, tr string, conn grpc.ClientConnInterface, c Case, rng *rand
 			if !early && !aborted {
 				logf(0, "c", r.op, "left pending by the script: %v", r.err)
 			}
-		case <-time.After(stepTimeout):
-			t.Hang = append(t.Hang, 0)
+		case <-expired(stepTimeout):
+			select {
+			case <-pend:
+			default:
+				t.Hang = append(t.Hang, 0)
+				logf(0, "c", "pending", "HANG")
+			}
 		}
 	}
 	select {
 	case <-cl.entered:
 		select {
 		case <-cl.exited:
-		case <-time.After(stepTimeout):
-			t.Hang = append(t.Hang, -1)
+		case <-expired(stepTimeout):
+			select {
+			case <-cl.exited:
+			default:
+				t.Hang = append(t.Hang, -1)
+				logf(0, "s", "handler", "never returned")
+			}
 		}
 	default:
 	}
